@@ -209,9 +209,10 @@ func cmdCheck(args []string) int {
 		sweepOnly = nSweep
 	}
 	detBad := determinismSlice(bin, tier, seedRng.Derive("det"), detSeeds, detProcs, childTimeout, sweepOnly)
-	if detBad != "" {
-		return harnessErr("determinism slice: %s", detBad)
-	}
+	// a failed determinism slice does not end the check at once: when the code under test itself
+	// is nondeterministic (a data race on shared state) the batch is what will show it; the failure
+	// becomes a harness error at the end only if nothing was found
+	
 
 	// the batch
 	type job struct {
@@ -498,6 +499,12 @@ func cmdCheck(args []string) int {
 		if exit == 0 {
 			return 2
 		}
+	}
+	if detBad != "" && exit == 0 {
+		return harnessErr("determinism slice: %s", detBad)
+	}
+	if detBad != "" {
+		fmt.Printf("NOTE determinism slice failed (%s): the runs of this tree are not reproducible from their seeds alone\n", detBad)
 	}
 	if tier == "thorough" && len(zeroProbes) > 0 && exit == 0 {
 		return harnessErr("workload reach probes never hit: %v", zeroProbes)
